@@ -363,6 +363,136 @@ func clientWireConnecting(name string, plan [][]int, bound int) *vx.Scenario {
 	return sc
 }
 
+// serverWireThenDisconnect: one goroutine emits an event with attachments and then calls Disconnect(true) on the
+// socket, over the real polling transport with a slow poller (the connection's sender is still busy with the
+// event's frames when the close comes). What reaches the wire is a prefix of [header, attachments..., DISCONNECT]:
+// the close may cut the stream short, but nothing overtakes and nothing lands between the frames of the packet.
+func serverWireThenDisconnect(name string, natt int, pollDelay time.Duration, bound int) *vx.Scenario {
+	sc := &vx.Scenario{Name: name, Bound: bound, Horizon: 30 * time.Second}
+	sc.Body = func(e *vsched.Exec) func() vx.Result {
+		vsched.SetExploring(false)
+		srv, mgr, link := vrig.NewSioPair(nil, nil)
+		var v vsched.Var
+		var ssock sio.ServerSocket
+		srv.OnConnection(func(s sio.ServerSocket) { v.Do(func() { ssock = s }) })
+		sock := mgr.Socket("/", nil)
+		connected := false
+		sock.OnConnect(func() { v.Do(func() { connected = true }) })
+		sock.Connect()
+		vsched.Await(func() bool { return connected && ssock != nil })
+		vrig.Settle(time.Second)
+		slow := false
+		link.OnRequest = func(n int, r *http.Request) bool {
+			if r.Method == "GET" && slow && pollDelay > 0 {
+				vsched.Sleep(pollDelay)
+			}
+			return false
+		}
+		v.Do(func() { slow = true })
+		nGetBefore := 0
+		link.V.Do(func() { nGetBefore = len(link.GetBodies) })
+		vsched.SetExploring(true)
+		vsched.GoQuiet("emitter-then-closer", func() {
+			ssock.Emit("e", emitArgs(0, 0, natt)...)
+			ssock.Disconnect(true)
+		})
+		return func() vx.Result {
+			var r vx.Result
+			frames, err := postsToFrames(link.GetBodies[nGetBefore:])
+			if err != nil {
+				r.Violate("server wire (polling transport): GET body not decodable", "%v", err)
+				return r
+			}
+			var seq []string
+			for _, f := range frames {
+				switch {
+				case f.binary:
+					seq = append(seq, "attachment")
+				case len(f.data) > 0 && (f.data[0] == '5' || f.data[0] == '2'):
+					seq = append(seq, "header")
+				case string(f.data) == "1":
+					seq = append(seq, "DISCONNECT")
+				default:
+					seq = append(seq, "other:"+string(f.data))
+				}
+			}
+			want := []string{"header"}
+			for i := 0; i < natt; i++ {
+				want = append(want, "attachment")
+			}
+			want = append(want, "DISCONNECT")
+			r.Outcome = fmt.Sprint(seq)
+			ok := len(seq) <= len(want)
+			for i := 0; ok && i < len(seq); i++ {
+				ok = seq[i] == want[i]
+			}
+			if !ok {
+				r.Violate("server (polling transport) wire: the DISCONNECT of Disconnect(true) overtakes or cuts into the frames of a packet emitted before it",
+					"frames on the wire %v; expected a prefix of %v", seq, want)
+			}
+			return r
+		}
+	}
+	return sc
+}
+
+// serverWireFramesThenDisconnect: the same over a transport that writes packet by packet (rig R1 in frame-by-frame
+// mode, as WebSocket does): whoever else writes to the connection while its sender is inside a batch lands
+// between the frames of a packet.
+func serverWireFramesThenDisconnect(name string, natt int, bound int) *vx.Scenario {
+	sc := &vx.Scenario{Name: name, Bound: bound, Horizon: 10 * time.Second}
+	sc.Body = func(e *vsched.Exec) func() vx.Result {
+		vsched.SetExploring(false)
+		srv := sio.NewServer(nil)
+		var sock sio.ServerSocket
+		var v vsched.Var
+		srv.OnConnection(func(s sio.ServerSocket) { v.Do(func() { sock = s }) })
+		f := vrig.NewFakeEIO(srv, "c02")
+		f.ConnectNS("/")
+		vsched.Await(func() bool { return sock != nil })
+		vrig.Settle(time.Second)
+		f.FrameByFrame = true
+		before := len(f.Frames)
+		vsched.SetExploring(true)
+		vsched.GoQuiet("emitter-then-closer", func() {
+			sock.Emit("e", emitArgs(0, 0, natt)...)
+			sock.Disconnect(true)
+		})
+		return func() vx.Result {
+			var r vx.Result
+			var seq []string
+			for _, fr := range f.Frames[before:] {
+				switch {
+				case fr.Binary:
+					seq = append(seq, "attachment")
+				case len(fr.Data) > 0 && (fr.Data[0] == '5' || fr.Data[0] == '2'):
+					seq = append(seq, "header")
+				case fr.Data == "1":
+					seq = append(seq, "DISCONNECT")
+				default:
+					seq = append(seq, "other:"+fr.Data)
+				}
+			}
+			want := []string{"header"}
+			for i := 0; i < natt; i++ {
+				want = append(want, "attachment")
+			}
+			want = append(want, "DISCONNECT")
+			r.Outcome = fmt.Sprint(seq)
+			ok := len(seq) <= len(want)
+			for i := 0; ok && i < len(seq); i++ {
+				ok = seq[i] == want[i]
+			}
+			if !ok {
+				r.Violate("server wire: the DISCONNECT of Disconnect(true) overtakes or cuts into the frames of a packet emitted before it",
+					"frames written %v; expected a prefix of %v", seq, want)
+			}
+			return r
+		}
+	}
+	return sc
+}
+
 // clientWireFlushRace: the same, aimed at the moment the client handles the CONNECT reply (state change, flush
 // of what was buffered while connecting). The first event of the emitter is buffered while the socket connects;
 // the reply travels for L of virtual time; the emitter goes on with its other events exactly when the reply
@@ -644,6 +774,9 @@ func scenarios(tier string) []*vx.Scenario {
 		serverWirePolling("server-wire-polling/1x4-attachments-4-1-0-2-each-flushed-alone-slow-poller", [][]int{{4, 1, 0, 2}}, time.Millisecond, time.Second, 1),
 		serverWirePolling("server-wire-polling/2x3-mixed-slow-poller", [][]int{{4, 0, 1}, {0, 2, 0}}, time.Millisecond, time.Second, 1),
 		serverWirePolling("server-wire-polling/2x2-mixed-no-gaps", [][]int{{2, 0}, {0, 1}}, 0, 0, bw-2),
+		serverWireThenDisconnect("server-wire-polling/emit-2-attachments-then-Disconnect(true)-slow-poller", 2, time.Second, 1),
+		serverWireThenDisconnect("server-wire-polling/emit-2-attachments-then-Disconnect(true)", 2, 0, bw-2),
+		serverWireFramesThenDisconnect("server-wire/frame-by-frame/emit-2-attachments-then-Disconnect(true)", 2, bw-1),
 		clientWire("client-wire/2x1-binary", [][]int{{1}, {2}}, bw-2),
 		clientWire("client-wire/2x2-mixed", [][]int{{0, 2}, {1, 0}}, bw-2),
 		clientWireConnecting("client-wire-connecting/1x3", [][]int{{0, 1, 0}}, bw-2),
